@@ -1252,9 +1252,9 @@ def run(ctx):
         "rule": "kernel lines (fold/tgt/merge/trip/flex/order/unwrap/ccp/ivloop/ivorig) over a boundary-heavy 32-bit distribution "
                 "(0, +-1, +-2, MIN, MIN+1, MAX, MAX-1, powers of two, sqrt(MAX), random) answered by the real functions/passes and by the Lean model; "
                 "generated int-only MIR programs (straight-line, if/else with phis, single-if, counting loops of all four guard kinds and both stride "
-                "signs, empty loops for the closed form, IV-elimination candidates, helper functions for inlining) run before/after each single pass, "
+                "signs, empty loops for the closed form, IV-elimination candidates, loops with 2-3 basic induction variables with distinct literal/parameter starts and derived variables of any of them live in prints/calls/accumulators, helper functions for inlining) run before/after each single pass, "
                 "the per-function round driver and optimize_sources (quick: 2 of the 32 configurations per program, thorough: all 32) over 8 argument "
-                "tuples incl. MIN/MAX. Non-trivial = distinct kernel line on which a non-default rule fired (folded / merged / reordered / positive trip "
+                "tuples incl. MIN/MAX; MIR compiled from generated samlang sources (tail-recursive functions with several counters) through the real front end, run before/after every pass. Non-trivial = distinct kernel line on which a non-default rule fired (folded / merged / reordered / positive trip "
                 "count / bind / loop with >=1 iteration) plus distinct (program, pass, config) whose MIR text was actually changed by the pass.",
         "samples": ksample + samples,
         "traces_validated_against_impl": len(lines),
@@ -1268,23 +1268,28 @@ def run(ctx):
         "known_finding_hits_in_kernel_stream": kstats["known"],
         "corpus_lines": corpus_lines,
         "partial_theorems": {
-            "fold_total_partial": "FoldSafe: + - * do not overflow, not MIN/-1, shift amount in 0..31",
-            "ccp_rule_exact_partial": "CcpSafe: not (x/x or x%x with x = 0)",
-            "merge_sound_partial": "ordering comparisons only when x + c1 does not wrap",
-            "ivelim_guard_partial": "multiplier > 0, m*i+c and m*bound+c in range (guard `<`)",
-            "tripcount_exact_partial": "initial value and bound in range, final counter value i0 + step*n does not wrap",
+            "ccp_rule_exact_partial": "CcpSafe: not (x/x or x%x with x = 0)  [C02-F2 open]",
+            "merge_sound_partial": "ordering comparisons only when x + c1 does not wrap  [C02-F3 open]",
+            "ivelim_guard_partial / ivelim_sound_noovf": "guard `<`, multiplier > 0, m*i+c in range along the run and at the bound  [C02-F4 open]",
+            "ivelim_sound_partial": "the new guard decides like the old one at every iteration up to the exit",
         },
-        "pending": ["ivelim_sound_partial at loop level (guard equivalence + strength_sound are proved, their composition over the loop is not)",
-                    "dce_preserves / licm_no_new_trap / cse_hoist_order on a mini statement language (validated by the oracle only)"],
+        "full_strength_theorems": ["fold_exact", "fold_never_panics", "binaryUnwrapped_sound", "flexibleOrder_sound", "flexUnwrapped_sound",
+                                   "strength_sound", "strength_multi_sound", "strength_multi_trace", "loopopt_strength_path_sound",
+                                   "tripcount_exact", "tripcount_final_value", "dce_preserves", "licm_no_new_trap"],
+        "pending": ["cse_hoist_order on a mini statement language (CSE is validated by the oracle only)",
+                    "dce_preserves / licm for nested if/while (proved for straight-line blocks / loop bodies of Binary + call statements)",
+                    "LICM permutation equivalence (hoisted ++ kept behaves like the body); only trap-freedom of the hoisted prefix is proved",
+                    "inlining, LVN, scalar replacement, unused-name elimination, CCP/loop drivers: validated, not modelled"],
     })
     ctx.assumptions += ["dev build profile of the compiler (overflow checks on), as used by the repo's own tests",
-                        "MIR programs are int-only (no structs/closures): scalar replacement is exercised only as a no-op",
+                        "generated MIR programs are int-only (no structs/closures): scalar replacement is exercised only as a no-op; source-derived MIR uses strings only as Str.fromInt(x) fed to Process.println",
                         "the harness MIR interpreter and the Python `tgt` are the reference for the wasm target's i32 semantics (cross-checked against each other on every run)"]
     return ctx.finish(res, trusted=common.TRUSTED_COMMON + [
-        "hand-written model Model/OptKernel.lean of evaluate_bin_op, CCP's literal rules, binary_unwrapped/flexible_order_binary, merge_binary_expression, trip counts, IV elimination and strength reduction on the observed-counting-loop family",
+        "hand-written model Model/OptKernel.lean of evaluate_bin_op, CCP's literal rules, binary_unwrapped/flexible_order_binary, merge_binary_expression, trip counts, IV elimination and strength reduction (observed counting loop; loops with several basic induction variables), straight-line DCE, LICM of Binary statements",
+        "the real front end (parser, checker, HIR lowering, specialisation, tail-recursion rewrite) as producer of source-derived MIR",
         "hook H1 (cfg(samlang_verif) wrappers around the private functions; add-only)",
         "MIR interpreter in harness/src/bin/c02.rs (wasm i32 semantics incl. traps; prints as observable trace) and the Python re-implementation `tgt`",
-        "not modelled in Lean (validated by before/after execution only): CCP/loop drivers, LVN, CSE, DCE, LICM, inlining, unused-name elimination, scalar replacement"])
+        "not modelled in Lean (validated by before/after execution only): CCP/loop drivers, LVN, CSE, DCE/LICM beyond straight-line blocks, inlining, unused-name elimination, scalar replacement"])
 
 
 def replay(ctx, path):
